@@ -111,6 +111,7 @@ def showState (s : Sys) : String := s!"{showKey s} {showExtras s}"
 structure McSt where
   nodes : List Nat := []
   procs : List (Nat × Nat × Bool) := []     -- proc, node, record
+  canons : List Nat := []                   -- processes whose actions are relayed in Python-bridge order
   rules : List (Nat × SRule) := []
   net : McNet := { maxDelay := delayBits "2" }
   cbs : List (List String) := []
@@ -132,7 +133,7 @@ def buildSys (st : McSt) : Sys :=
 
 def handlerOf (st : McSt) : Handler PState :=
   let scripts := st.procs.map fun (p, _, rec) =>
-    (p, ({ rules := (st.rules.filter (·.1 == p)).map (·.2), record := rec } : Script))
+    (p, ({ rules := (st.rules.filter (·.1 == p)).map (·.2), record := rec, canon := st.canons.contains p } : Script))
   scriptHandler scripts
 
 def flag! (s : String) : Bool := s != "0"
